@@ -73,6 +73,7 @@ pub fn run(a: WorkerArgs) -> i32 {
     let mut idx = a.from;
     let mut printed_viol = 0;
     let mut samples = 0;
+    let mut hangs = 0u64;
     let emit_fp = std::env::var("VERIF_EMIT_FP").is_ok();
     while idx < a.to {
         // unbuffered marker: the supervisor must know which case was running if this process dies
@@ -97,6 +98,7 @@ pub fn run(a: WorkerArgs) -> i32 {
         for x in r.states {
             acc.states.insert(x);
         }
+        hangs += r.counters.get("hangs_contained").copied().unwrap_or(0);
         for (k, v) in r.counters {
             if k.starts_with("max.") {
                 let e = acc.counters.entry(k).or_insert(0);
@@ -127,6 +129,13 @@ pub fn run(a: WorkerArgs) -> i32 {
             acc.flush(&mut out);
         }
         idx += a.stride.max(1);
+        if hangs >= 3 && idx < a.to {
+            // every contained hang leaves a parked thread holding its memory: recycle this process
+            acc.flush(&mut out);
+            let _ = writeln!(out, "RECYCLE {}", idx);
+            let _ = out.flush();
+            return crate::runner::EXIT_RECYCLE;
+        }
     }
     acc.flush(&mut out);
     let _ = writeln!(out, "DONE");
